@@ -141,7 +141,7 @@ func checkC16(c c16Case, rec *Rec) *Violation {
 	}
 	if c.Kind == "engine" {
 		// through the engine: the document request itself is excepted
-		text := c16RuleText(c) + "\n##.generic\nexample.org##.specific\nexample.*##.wild\n~shop.example.net,~a.com##.genericneg\n"
+		text := c16RuleText(c) + "\n##.generic\nexample.org##.specific\nexample.*##.wild\n~shop.example.net,~a.com##.genericneg\n##.dup\nexample.org##.dup\n"
 		st, err := filterlist.NewRuleStorage([]filterlist.RuleList{&filterlist.StringRuleList{ID: 1, RulesText: text}})
 		if err != nil {
 			return viol(id, "C16:harness", "storage: %v", err)
@@ -170,6 +170,11 @@ func checkC16(c c16Case, rec *Rec) *Violation {
 			if g := inList(".generic", e.GetCosmeticResult(h, got).ElementHiding.Generic); g != wantG {
 				return viol(id, "C16:engine-selectors", "rule %q: option %03b: generic selector for host %q present=%v, want %v", c16RuleText(c), got, h, g, wantG)
 			}
+		}
+		// a selector carried by a generic and by a specific rule: the specific one stays when only generic CSS is off
+		if r := e.GetCosmeticResult("example.org", got).ElementHiding; (inList(".dup", r.Generic) || inList(".dup", r.Specific)) != wantS {
+			return viol(id, "C16:engine-selectors", "rule %q: option %03b: selector carried by a generic and a specific rule present=%v, want %v (generic=%q specific=%q)",
+				c16RuleText(c), got, !wantS, wantS, r.Generic, r.Specific)
 		}
 		// a rule that only excludes domains is generic as well
 		for _, h := range []string{"example.org", "sub.example.org", "other.example"} {
